@@ -46,6 +46,8 @@ type c07case struct {
 	Fail     string   `json:"injected_failure,omitempty"` // "" | err | busykey
 	FailKey  string   `json:"failing_key,omitempty"`
 	Inputs   int      `json:"input_files,omitempty"`
+	KeyExist string   `json:"key_exists,omitempty"`
+	FailMsg  string   `json:"injected_error_reply,omitempty"`
 	Passwd   string   `json:"-"`
 	KeyNames []string `json:"-"`
 }
@@ -99,6 +101,17 @@ func runC07(r resIface, c *c07case, rng *prng.R, scratch string) {
 	ref := &reffilter.Config{}
 	conf.Options = conf.Configuration{Parallel: c.Parallel, TargetDB: c.TargetDB, TargetType: conf.RedisTypeStandalone, KeyExists: "none", BigKeyThreshold: 50 << 20,
 		TargetVersion: "5.0.7", TargetReplace: true, Metric: true, TargetAuthType: "auth", TargetPasswordRaw: c07sentinel, HttpProfile: -1, SourceRdbParallel: 1, Id: "verif"}
+	if c.Fail == "err" {
+		// a failing restore must be reported under every key_exists policy, whatever the target's error says
+		// (policy, message) pairs are walked in a fixed order so that a quick run covers every message under 'ignore'
+		msgs := []string{"ERR injected failure", "BUSY Redis is busy running a script. You can only call SCRIPT KILL or SHUTDOWN NOSAVE.",
+			"LOADING Redis is loading the dataset in memory", "OOM command not allowed when used memory > 'maxmemory'.",
+			"READONLY You can't write against a read only replica.", "ERR the target is busy, try again", "MISCONF Redis is configured to save RDB snapshots, but it is currently not able to persist on disk."}
+		k := (c.Index/6 - (c.Index/6+1)/4) % (3 * len(msgs)) // dense index over the cases that inject an error reply
+		c.KeyExist = []string{"ignore", "none", "rewrite"}[k/len(msgs)]
+		conf.Options.KeyExists = c.KeyExist
+		c.FailMsg = msgs[k%len(msgs)]
+	}
 	switch c.Filter {
 	case "keyblack":
 		conf.Options.FilterKeyBlacklist = []string{"skip:"}
@@ -153,7 +166,7 @@ func runC07(r resIface, c *c07case, rng *prng.R, scratch string) {
 		if c.Fail == "busykey" {
 			srv.Put(fk.db, fk.key, &rdbgen.Value{Kind: "string", Str: []byte("already-there")}, 0)
 		} else {
-			srv.Faults = append(srv.Faults, &miniredis.Fault{Cmd: "restore", Key: fk.key, Nth: 1, Reply: miniredis.ErrReply("ERR injected failure")})
+			srv.Faults = append(srv.Faults, &miniredis.Fault{Cmd: "restore", Key: fk.key, Nth: 1, Reply: miniredis.ErrReply(c.FailMsg)})
 		}
 	} else {
 		c.Fail = ""
@@ -385,7 +398,10 @@ func c07runsChild(raw json.RawMessage, scratch string) {
 		}
 		sort.Ints(c.DBs)
 		if i%6 == 5 {
-			c.Fail = rng.PickS("err", "busykey")
+			c.Fail = "err"
+			if i/6%4 == 3 {
+				c.Fail = "busykey"
+			}
 			c.Keys = 50
 		}
 		wk.ChildCase(i, c)
